@@ -411,6 +411,29 @@ func c10WriteOrder(c *Check, a *Anchors) {
 		}
 		c.Decide(okSet && !gated, "vars-write-order", "override-semantics@"+fnDisplay(lit), lit.Body.Pos(), "every successful return follows an unconditional result.Set; the result is never consulted first",
 			fmt.Sprintf("the range function does not always override (Set before every nil return: %v, consults result.Get: %v): a higher-priority definition would not replace a lower-priority one", okSet, gated))
+		// every variable value that is stored came out of the templater (which also deep-copies maps and lists handed over by
+		// reference): a value stored as it was received is the caller's own object
+		for call, l := range f.Labels {
+			if l != "set" {
+				continue
+			}
+			st := f.At[call]
+			for _, arg := range call.Args {
+				ast.Inspect(arg, func(m ast.Node) bool {
+					sel, ok := m.(*ast.SelectorExpr)
+					if !ok || sel.Sel.Name != "Value" {
+						return true
+					}
+					v := varOf(info, sel.X)
+					if v == nil || !isNamed(v.Type(), PkgAst, "Var") {
+						return true
+					}
+					c.Decide(st.Has(defPrefix(v)+"replace"), "vars-write-order", "value-copied "+v.Name()+"@"+fnDisplay(lit), call.Pos(), "the stored value is the templater's copy",
+						"the range function stores `"+exprStr(sel)+"` although `"+v.Name()+"` is not, on every path, the result of templater.ReplaceVar: a map or list passed by `ref:` is stored as the caller's own object, so what one callee's template does to it (set / unset / mergeOverwrite) is seen by the next call and by the caller; must-facts: "+st.String())
+					return true
+				})
+			}
+		}
 		// cache freshness: the cache used for templating is built in this closure, or reset before use
 		for call, l := range f.Labels {
 			if l != "replace" {
